@@ -209,6 +209,10 @@ class OneCursor:
                 raise Desync(f'fetch-{kind}', f'{ev} returned {got!r}; model positions {sorted(m.pos)} expect {exp!r}')
             if m.n is not None:
                 m.pos = frozenset(p + k for p, k in fits.items())
+            # the list handed out belongs to the caller: what the caller does with it must not reach the cursor
+            if isinstance(got, list):
+                got.append((-99, 'appended by the caller'))
+                got.reverse()
         elif kind == 'iterall' or kind == 'iternext':
             if kind == 'iterall':
                 got = [tuple(r) for r in iter(cur)]
